@@ -102,14 +102,55 @@ Proof.
     specialize (Hw _ Hiv). unfold window_ok in Hw.
     apply punavail_one_sound; try lia.
     apply H. apply in_flat_map. exists (lo, hi). split; auto. apply in_map_iff. exists (w, b). auto.
-  - (* interrupted, tasks that are not of variable duration *)
+  - (* interrupted *)
     apply in_flat_map in Hin as ([w b] & Hb & Hin).
     apply in_all_busy in Hb as (l & Hu & Hb).
     assert (HA : feval e (interrupted_worker w l ivs) = true).
     { apply H. apply in_map_iff. exists (w, l). auto. }
     unfold interrupted_worker in HA.
     destruct (ti_kind (be_task b)) as [|d|mn mx al] eqn:Hk; cbv iota beta in Hin.
-    3: destruct Hin.
+    3: { (* variable duration *)
+      destruct (forallb (fun '(lo, hi) => lo <? hi) ivs) eqn:Hw; [|destruct Hin].
+      assert (Hel : forall g, In g (flat_map (fun '(lo, hi) =>
+                        [FXor (FLe (bsv w b) (TC lo)) (FGe (bsv w b) (TC hi)); FXor (FLe (bev w b) (TC lo)) (FGe (bev w b) (TC hi))]) ivs
+                      ++ [FGe (D_ (be_task b)) (TAdd [TC mn; TAdd (map (fun '(lo, hi) =>
+                             TIte (FNot (FXor (FGe (bsv w b) (TC hi)) (FLe (bev w b) (TC lo)))) (TC (hi - lo)) (TC 0)) ivs)])]
+                      ++ (match mx with Some m => [FLe (D_ (be_task b)) (TAdd [TC m; TAdd (map (fun '(lo, hi) =>
+                             TIte (FNot (FXor (FGe (bsv w b) (TC hi)) (FLe (bev w b) (TC lo)))) (TC (hi - lo)) (TC 0)) ivs)])] | None => [] end))
+                    -> feval e g = true).
+      { intros g Hg. apply (fand_in _ _ _ HA). apply in_flat_map. exists b. split; [exact Hb|]. rewrite Hk. exact Hg. }
+      apply in_app_or in Hin as [Hin|Hin].
+      - (* neither end inside an interruption *)
+        apply in_flat_map in Hin as ([lo hi] & Hiv & [[= <- <-]|[]]).
+        assert (X1 : feval e (FXor (FLe (bsv w b) (TC lo)) (FGe (bsv w b) (TC hi))) = true).
+        { apply Hel. apply in_or_app. left. apply in_flat_map. exists (lo, hi). split; [exact Hiv|now left]. }
+        assert (X2 : feval e (FXor (FLe (bev w b) (TC lo)) (FGe (bev w b) (TC hi))) = true).
+        { apply Hel. apply in_or_app. left. apply in_flat_map. exists (lo, hi). split; [exact Hiv|right; now left]. }
+        ev. lia.
+      - (* lengthened by the interruptions it overlaps *)
+        assert (Hov : teval e (bsv w b) <= teval e (bev w b) ->
+                  tsum e (map (fun '(lo, hi) => TIte (FNot (FXor (FGe (bsv w b) (TC hi)) (FLe (bev w b) (TC lo)))) (TC (hi - lo)) (TC 0)) ivs)
+                  = tsum e (map (fun '(lo, hi) => TIte (FAnd [FLt (bsv w b) (TC hi); FGt (bev w b) (TC lo)]) (TC (hi - lo)) (TC 0)) ivs)).
+        { intros Hle. clear - Hw Hle. induction ivs as [|[lo hi] r IH]; [reflexivity|].
+          cbn [forallb] in Hw. apply andb_true_iff in Hw as [Hlh Hr]. cbn [map]. rewrite !tsum_cons, (IH Hr). f_equal.
+          rewrite !(teval_eq e (TIte _ _ _)), (feval_eq e (FNot _)), (feval_eq e (FXor _ _)), (feval_eq e (FAnd _)). cbn [forallb].
+          rewrite !(feval_eq e (FGe _ _)), !(feval_eq e (FLe _ _)), !(feval_eq e (FLt _ _)), !(feval_eq e (FGt _ _)), !(teval_eq e (TC _)).
+          destruct (teval e (bsv w b) >=? hi) eqn:E1, (teval e (bev w b) <=? lo) eqn:E2, (teval e (bsv w b) <? hi) eqn:E3, (teval e (bev w b) >? lo) eqn:E4; cbn; try reflexivity; lia. }
+        apply in_app_or in Hin as [Hin|Hin].
+        + destruct Hin as [[= <- <-]|[]]. rewrite feval_eq. destruct (feval e (FLe (bsv w b) (bev w b))) eqn:Hp; [cbn [implb]|reflexivity].
+          rewrite feval_eq in Hp.
+          assert (X : feval e (FGe (D_ (be_task b)) (TAdd [TC mn; TAdd (map (fun '(lo, hi) =>
+                             TIte (FNot (FXor (FGe (bsv w b) (TC hi)) (FLe (bev w b) (TC lo)))) (TC (hi - lo)) (TC 0)) ivs)])) = true).
+          { apply Hel. apply in_or_app. right. apply in_or_app. left. now left. }
+          rewrite feval_eq in X. rewrite feval_eq. rewrite !(teval_eq e (TAdd [_; _])), !tsum_cons, !tsum_nil, !(teval_eq e (TAdd (map _ _))) in *.
+          rewrite <- Hov by lia. lia.
+        + destruct mx as [m|]; [|destruct Hin]. destruct Hin as [[= <- <-]|[]]. rewrite feval_eq.
+          destruct (feval e (FLe (bsv w b) (bev w b))) eqn:Hp; [cbn [implb]|reflexivity]. rewrite feval_eq in Hp.
+          assert (X : feval e (FLe (D_ (be_task b)) (TAdd [TC m; TAdd (map (fun '(lo, hi) =>
+                             TIte (FNot (FXor (FGe (bsv w b) (TC hi)) (FLe (bev w b) (TC lo)))) (TC (hi - lo)) (TC 0)) ivs)])) = true).
+          { apply Hel. apply in_or_app. right. apply in_or_app. right. now left. }
+          rewrite feval_eq in X. rewrite feval_eq. rewrite !(teval_eq e (TAdd [_; _])), !tsum_cons, !tsum_nil, !(teval_eq e (TAdd (map _ _))) in *.
+          rewrite <- Hov by lia. lia. }
     all: apply in_map_iff in Hin as ([lo hi] & [= <- <-] & Hiv);
       (assert (H1 : feval e (FXor (FGe (bsv w b) (TC hi)) (FLe (bev w b) (TC lo))) = true);
        [apply (fand_in _ _ _ HA); apply in_flat_map; exists b; split; [exact Hb|]; rewrite Hk;
